@@ -2431,6 +2431,16 @@ impl<T: Storage> Raft<T> {
                     );
                     return Ok(());
                 }
+                if m.from == INVALID_ID {
+                    // `from` names the transferee. `send` would replace the invalid id by
+                    // this node's own id, and the leader would take the request for one that
+                    // names this node.
+                    info!(
+                        self.logger,
+                        "dropping leader transfer msg that names no node";
+                    );
+                    return Ok(());
+                }
                 m.to = self.leader_id;
                 self.r.send(m, &mut self.msgs);
             }
